@@ -62,6 +62,7 @@ def analyse(ctx, replace=None, only=None):
     emulated_realloc(R, P)
     realloc_calloc(R, fns)
     destroy(R, fns)
+    calloc_product(R, P, fns)
 
 
 def lock_rules(R, fns):
@@ -643,6 +644,29 @@ def realloc_calloc(R, fns):
                 "memset(mem, 0, n) with n the allocation size %s" % c.show(RU.arg(c, al[0].node, 1)), "calloc zeroes %s bytes of a %s-byte block" % (c.show(RU.arg(c, ms[0].node, 2)), c.show(RU.arg(c, al[0].node, 1))))
 
 
+def calloc_product(R, P, fns):
+    """CALLOC/product: s_sba_mem_calloc multiplies num * size itself; the product is exact only because aws_mem_calloc - the one
+    way into an allocator's mem_calloc - has multiplied the same two numbers with the checked helper and aborts when that
+    fails, before it dispatches.  (Or the small-block calloc uses the checked helper itself.)"""
+    c = fns["s_sba_mem_calloc"]
+    own = c.calls({"aws_mul_size_checked", "aws_mul_u64_checked"})
+    g = P.fn("aws_mem_calloc")
+    if not R.require(g is not None, "aws_mem_calloc not found"):
+        return
+    ind = [e for e in g.indirect_calls() if (RU.indirect_via(g, e.node) or (None, None))[1] == "mem_calloc"]
+    if not R.require(len(ind) >= 1, "aws_mem_calloc: dispatch through mem_calloc not found"):
+        return
+    dom = dominators(g)
+    for e in ind:
+        ok = bool(own)
+        for c_, p_, b_ in RU.guards(g, e, dom):
+            t = RU.call_test(g, c_, p_)
+            if t and t[0].get("callee") in ("aws_mul_size_checked", "aws_mul_u64_checked") and t[1] == "zero" and [argstr(g, t[0], i) for i in (0, 1)] == [argstr(g, e.node, 1), argstr(g, e.node, 2)]:
+                ok = True
+        R.check(ok, "CALLOC", "product-checked-before-dispatch", where(g, e), "num * size is known not to overflow when the allocator's own calloc is called",
+                "aws_mem_calloc hands num and size to the allocator's mem_calloc without having checked their product, and s_sba_mem_calloc multiplies them unchecked: a wrapped product is served from a small size class (aws_mem_calloc(sba, 2^60 + 1, 16) returns a 32-byte chunk)")
+
+
 def destroy(R, fns):
     f = fns["s_sba_clean_up"]
     frees = f.calls(page_free_fns(fns))
@@ -692,6 +716,9 @@ MUTANTS = [
      "old": "if (page->tag == AWS_SBA_TAG_VALUE && page->tag2 == AWS_SBA_TAG_VALUE) {", "new": "if (page->tag == AWS_SBA_TAG_VALUE) {"},
     {"name": "realloc-copy-unguarded", "file": FILE, "expect": "REALLOC",
      "old": "    if (old_size > new_size) {\n        return old_ptr;\n    }\n", "new": "    if (old_size > new_size && new_size > s_max_bin_size) {\n        return old_ptr;\n    }\n"},
+    {"name": "calloc-product-checked-only-on-the-emulated-path", "file": "source/allocator.c", "expect": "CALLOC",
+     "old": "    size_t required_bytes = 0;\n    AWS_FATAL_POSTCONDITION(!aws_mul_size_checked(num, size, &required_bytes), \"calloc computed size > SIZE_MAX\");\n\n    /* If there is a defined calloc, use it */\n    if (allocator->mem_calloc) {\n        void *mem = allocator->mem_calloc(allocator, num, size);\n        AWS_PANIC_OOM(mem, \"Unhandled OOM encountered in aws_mem_acquire with allocator\");\n        return mem;\n    }\n",
+     "new": "    /* If there is a defined calloc, use it */\n    if (allocator->mem_calloc) {\n        void *mem = allocator->mem_calloc(allocator, num, size);\n        AWS_PANIC_OOM(mem, \"Unhandled OOM encountered in aws_mem_acquire with allocator\");\n        return mem;\n    }\n    size_t required_bytes = 0;\n    AWS_FATAL_POSTCONDITION(!aws_mul_size_checked(num, size, &required_bytes), \"calloc computed size > SIZE_MAX\");\n"},
     {"name": "calloc-zeroes-size-only", "file": FILE, "expect": "CALLOC", "old": "    memset(mem, 0, size * num);", "new": "    memset(mem, 0, size);"},
     {"name": "bytes-reserved-unlocked", "file": FILE, "expect": "LOCK",
      "old": "        sba->lock(&bin->mutex);\n        used += (bin->active_pages.length + (bin->page_cursor != NULL)) * AWS_SBA_PAGE_SIZE;\n        sba->unlock(&bin->mutex);",
